@@ -209,7 +209,7 @@ def run(ctx):
                         "regex/email/uri/datetime are delegated to Go's regexp / net/mail / net/url / time: only clearly valid and clearly invalid probes are used for them"]
     ctx.classifiers["zero_int_then_exp_document"] = lambda case: isinstance(case, dict) and bool(N10.ZERO_INT_EXP.match(case.get("document", "")))
     cases = []
-    n = 200 if quick else 6000
+    n = 600 if quick else 6000
     for _ in range(n):
         for gen in (num_cases, precision_cases, length_cases, regex_cases, enum_cases, const_cases, format_cases, combo_cases):
             cases += gen(rng)
